@@ -1429,6 +1429,23 @@ def m_bytes_split(ip, b, sep=None, maxsplit=-1):
     raise Unsupported('split on symbolic value')
 
 
+def m_str_rsplit(ip, s, sep=None, maxsplit=-1):
+    """s.rsplit(sep, 1) for a non-empty literal separator: [s] when sep does not occur, else [head, tail] with
+    s = head + sep + tail and no sep in tail (z3 strings)"""
+    if isinstance(s, str) and isinstance(sep, (str, type(None))) and isinstance(maxsplit, int):
+        return PyList(s.rsplit(sep, maxsplit))
+    if not (isinstance(s, Sym) and s.ty == 'str' and z3.is_seq(s.t) and isinstance(sep, str) and sep and ops.const_int(maxsplit) == 1):
+        raise Unsupported('str.rsplit is modelled for a literal separator and maxsplit=1 only')
+    used(ip, 'str.rsplit(sep, 1): [s] if sep does not occur, else [head, tail] with s = head+sep+tail and sep not in tail')
+    st = z3.StringVal(sep)
+    if not ip.ctx.branch(ops.sbool(z3.Contains(s.t, st))):
+        return PyList([s])
+    h = ip.ctx.fresh('rsplit_head', StrSort)
+    t = ip.ctx.fresh('rsplit_tail', StrSort)
+    ip.ctx.assume(z3.And(s.t == z3.Concat(h, st, t), z3.Not(z3.Contains(t, st))))
+    return PyList([Sym(h, 'str'), Sym(t, 'str')])
+
+
 def m_str_isdigit(ip, s):
     if isinstance(s, str):
         return s.isdigit()
@@ -1523,7 +1540,7 @@ def m_bytes_hex(ip, b):
 
 BYTES_METHODS = {'decode': m_bytes_decode, 'join': m_bytes_join, 'split': m_bytes_split, 'startswith': m_str_startswith,
                  'endswith': m_str_endswith, 'replace': m_str_replace, 'hex': m_bytes_hex}
-STR_METHODS = {'isdigit': m_str_isdigit, 'encode': m_str_encode, 'join': None, 'split': m_bytes_split, 'startswith': m_str_startswith,
+STR_METHODS = {'rsplit': m_str_rsplit, 'isdigit': m_str_isdigit, 'encode': m_str_encode, 'join': None, 'split': m_bytes_split, 'startswith': m_str_startswith,
                'endswith': m_str_endswith, 'replace': m_str_replace, 'upper': m_str_upper, 'lower': m_str_lower,
                'format': m_str_format, 'zfill': m_str_zfill, 'strip': m_str_strip, 'rstrip': _strip_model('rstrip'),
                'lstrip': _strip_model('lstrip')}
